@@ -145,3 +145,4 @@ package internal
 //@   loop 1: invariant handled == 0 && len(kvs) == idx
 //@   call handleChanges#0: assert arg_key == key && len(arg_kvs) == len(resp.Kvs)
 //@   ensures handled == 1
+
